@@ -12,6 +12,8 @@ mod server;
 mod state;
 pub mod transport;
 mod types;
+#[cfg(feature = "verif")]
+pub mod verif;
 
 use std::collections::{BTreeMap, HashMap, HashSet};
 use std::iter::once;
